@@ -72,6 +72,14 @@ Spec == Init /\ [][Next]_vars /\ WF_vars(Next)
 SoundA(ar, cs, ex) == \A a \in ar : a \in cs /\ a[1] \notin ex /\ a[2] \notin ex
 CompleteA(ar, cs, ls, ex) == \A c \in cs : (c[1] \in ls /\ c[2] # c[1] /\ c[2] \notin ex) => c \in ar
 
+\* --- the Mermaid generator of the same diagram kind (pkg/mermaid/integrationdiagram) ---------
+\* It has no views: the full diagram draws every calling pair of the model once (the project application included);
+\* the diagram of one application draws the calling pairs of every application that one reaches.
+RECURSIVE ReachFrom(_, _, _)
+ReachFrom(cs, S, n) == IF n = 0 THEN S ELSE ReachFrom(cs, S \cup {c[2] : c \in {d \in cs : d[1] \in S}}, n - 1)
+MermaidFull(cs) == cs
+MermaidOf(cs, a) == {c \in cs : c[1] \in ReachFrom(cs, {a}, Cardinality(cs) + 1)}
+
 Sound == SoundA(arrows, calls, excl)
 Complete == phase = "done" => CompleteA(arrows, calls, listed, excl)
 \* pass-through cycles end
